@@ -43,3 +43,12 @@ package textproto
 //@   modifies nothing
 //@   ensures[values_of_the_canonical_key] (h == nil || !has(h, canonKey(key))) ==> len(result0) == 0
 //@   ensures[values_of_the_canonical_key_when_present] h != nil && has(h, canonKey(key)) ==> sameslice(result0, h[canonKey(key)])
+
+//@ func (MIMEHeader).Set
+//@   props C26 C52
+//@   nopanic
+//@   requires h != nil
+//@   modifies h[..]
+//@   ensures[single_value_under_the_canonical_key] has(h, canonKey(key)) && len(h[canonKey(key)]) == 1 && h[canonKey(key)][0] == value
+//@   ensures[other_keys_are_kept] forall k string :: k != canonKey(key) ==> (has(h, k) <==> old(has(h, k)))
+//@   ensures[other_values_are_kept] forall k string :: k != canonKey(key) ==> sameslice(h[k], old(h[k]))
